@@ -260,12 +260,13 @@ func argsAre(fs *token.FileSet, c *ast.CallExpr, names ...string) bool {
 }
 
 // events of a statement list, in source order, rendered as constructors of Ro.Facts.PromEv:
-//   .inc "counter"            counter.Inc()
-//   .fwdNext/.fwdError/.fwdComplete   destination.XWithContext(<the callback's own arguments>)
-//   .fwdModified "<src>"      destination.X called with anything else
-//   .observe "<guard>" "m"    m.Observe(…), guard = enclosing if-condition ("" = none)
-//   .stamp "v" / .readStamp / .clock "v"
-//   .other "<src>"            anything else (rejected by the Lean predicates)
+//
+//	.inc "counter"            counter.Inc()
+//	.fwdNext/.fwdError/.fwdComplete   destination.XWithContext(<the callback's own arguments>)
+//	.fwdModified "<src>"      destination.X called with anything else
+//	.observe "<guard>" "m"    m.Observe(…), guard = enclosing if-condition ("" = none)
+//	.stamp "v" / .readStamp / .clock "v"
+//	.other "<src>"            anything else (rejected by the Lean predicates)
 func promEvents(fs *token.FileSet, stmts []ast.Stmt, guard string, value string) []string {
 	var out []string
 	other := func(n ast.Node) { out = append(out, ".other "+leanStr(promSrc(fs, n))) }
